@@ -20,7 +20,7 @@ using PPL::Grid_Generator; using PPL::Grid_Generator_System; using PPL::Coeffici
 using PPL::dimension_type;
 using oracle::QPoint;
 
-enum Kind { POLY, SHAPE, BOX, GRID };
+enum Kind { POLY, SHAPE, BOX, GRID, PSET, PROD };
 
 template <class D> struct Dom;   // name(), kind, nnc, oct, rational
 
@@ -95,6 +95,19 @@ template <class T> inline std::string str(const T& x) { std::ostringstream o; o 
 // ---------------------------------------------------------------- membership, fingerprints
 template <class D> inline bool member_of(D& priv_copy, const QPoint& p) {
   if constexpr (Dom<D>::kind == GRID) return oracle::sat_all(priv_copy.congruences(), p);
+  else if constexpr (Dom<D>::kind == PSET) {
+    // union of the disjuncts: each disjunct is deep-copied, so that evaluating
+    // it never touches a representation shared with another powerset
+    typedef typename Dom<D>::base_type B;
+    const D& c = priv_copy;
+    for (typename D::const_iterator i = c.begin(), e = c.end(); i != e; ++i) { B d(i->pointset()); if (member_of(d, p)) return true; }
+    return false;
+  }
+  else if constexpr (Dom<D>::kind == PROD) {
+    // unreduced components, read directly (the harness is compiled with -fno-access-control)
+    typename Dom<D>::d1_type a(priv_copy.d1); typename Dom<D>::d2_type b(priv_copy.d2);
+    return member_of(a, p) && member_of(b, p);
+  }
   else return oracle::sat_all(priv_copy.constraints(), p);
 }
 
@@ -135,6 +148,7 @@ struct Probes {
 };
 
 template <class D> inline Fp fingerprint(const D& x, Probes& pr) {
+  FaultPause pause;
   D c(x);
   Fp f; f.dim = c.space_dimension();
   std::vector<QPoint>& v = pr.of(f.dim);
@@ -142,6 +156,17 @@ template <class D> inline Fp fingerprint(const D& x, Probes& pr) {
   if constexpr (Dom<D>::kind == GRID) {
     const Congruence_System& cgs = c.congruences();
     for (size_t i = 0; i < v.size(); ++i) f.bits[i] = oracle::sat_all(cgs, v[i]);
+  }
+  else if constexpr (Dom<D>::kind == PSET) {
+    typedef typename Dom<D>::base_type B;
+    const D& cc = c;
+    std::vector<std::unique_ptr<B> > ds;
+    for (typename D::const_iterator i = cc.begin(), e = cc.end(); i != e; ++i) ds.emplace_back(new B(i->pointset()));
+    for (size_t i = 0; i < v.size(); ++i) { bool in = false; for (auto& d : ds) if (member_of(*d, v[i])) { in = true; break; } f.bits[i] = in; }
+  }
+  else if constexpr (Dom<D>::kind == PROD) {
+    typename Dom<D>::d1_type a(c.d1); typename Dom<D>::d2_type b(c.d2);
+    for (size_t i = 0; i < v.size(); ++i) f.bits[i] = member_of(a, v[i]) && member_of(b, v[i]);
   }
   else {
     const Constraint_System& cs = c.constraints();
@@ -151,6 +176,51 @@ template <class D> inline Fp fingerprint(const D& x, Probes& pr) {
 }
 
 template <class D> inline std::string dump_of(const D& x) { std::ostringstream o; x.ascii_dump(o); return o.str(); }
+
+// What a bystander must keep: its exact dump text, except for powersets, whose
+// disjuncts may share a copy-on-write representation with an involved object
+// (a lazy update of a shared disjunct legitimately changes the text): there
+// only the denoted set (probe points) is compared.
+template <class D> inline std::string bystander_sig(const D& x, Probes& pr) {
+  if constexpr (Dom<D>::kind == PSET) { Fp f = fingerprint(x, pr); return std::to_string(f.dim) + ":" + std::to_string(f.hash()); }
+  else return dump_of(x);
+}
+
+// context for definition checks done inside operation closures
+struct DefCtx { Ctx* ctx = nullptr; Probes* probes = nullptr; const Op* op = nullptr; std::string dom, prop; bool active = false; };
+static DefCtx g_def;
+inline void def_violation(const std::string& monitor, const std::string& detail) {
+  if (!g_def.ctx || !g_def.active) return;
+  g_def.ctx->violation(g_def.prop, monitor, g_def.dom + "|" + (g_def.op ? g_def.op->kind : "?") + "|-", detail);
+}
+
+// ---- pointwise definition checks (active for C01 C04 C05 C09 C10): the membership of every
+// probe point in a result must be what the mathematical definition dictates.
+typedef std::vector<bool> Bits;
+template <class D> inline Bits defbits(const D& x) { if (!g_def.active || !g_def.probes) return Bits(); return fingerprint(x, *g_def.probes).bits; }
+inline bool bits_subset(const Bits& a, const Bits& b) { if (a.size() != b.size()) return true; for (size_t i = 0; i < a.size(); ++i) if (a[i] && !b[i]) return false; return true; }
+inline std::string probe_str(dimension_type dim, size_t i) { if (!g_def.probes) return "?"; auto& v = g_def.probes->of(dim); return i < v.size() ? oracle::show(v[i]) : std::string("?"); }
+inline void def_expect_eq(const char* what, dimension_type dim, const Bits& post, const Bits& want) {
+  if (!g_def.active || post.size() != want.size()) return;
+  for (size_t k = 0; k < post.size(); ++k) if (post[k] != want[k]) {
+    def_violation(std::string("def-") + what, std::string("point ") + probe_str(dim, k) + (post[k] ? " is in the result but not in the set the definition dictates" : " is lost: the definition puts it in the result")); return; }
+}
+inline void def_expect_between(const char* what, dimension_type dim, const Bits& lower, const Bits& post, const Bits& upper) {
+  if (!g_def.active || post.size() != lower.size() || post.size() != upper.size()) return;
+  for (size_t k = 0; k < post.size(); ++k) {
+    if (lower[k] && !post[k]) { def_violation(std::string("def-") + what, "point " + probe_str(dim, k) + " is lost"); return; }
+    if (post[k] && !upper[k]) { def_violation(std::string("def-") + what, "point " + probe_str(dim, k) + " is gained"); return; }
+  }
+}
+inline void def_expect_sub(const char* what, dimension_type dim, const Bits& lower, const Bits& post) {
+  if (!g_def.active || post.size() != lower.size()) return;
+  for (size_t k = 0; k < post.size(); ++k) if (lower[k] && !post[k]) { def_violation(std::string("def-") + what, "point " + probe_str(dim, k) + " is lost"); return; }
+}
+inline mpq_class eval_le(const Linear_Expression& le, const QPoint& p) {
+  mpq_class v(le.inhomogeneous_term());
+  for (dimension_type j = 0; j < le.space_dimension() && j < p.size(); ++j) v += mpq_class(le.coefficient(Variable(j))) * p[j];
+  return v;
+}
 
 inline std::string status_of_dump(const std::string& d) {
   // first three lines with digits removed: the status words
@@ -167,7 +237,25 @@ inline std::string status_of_dump(const std::string& d) {
 template <class D> inline std::unique_ptr<D> canonical(const D& x, int variant) {
   D c(x);
   dimension_type dim = c.space_dimension();
-  if constexpr (Dom<D>::kind == GRID) {
+  if constexpr (Dom<D>::kind == PSET) {
+    typedef typename Dom<D>::base_type B;
+    std::unique_ptr<D> t(new D(dim, PPL::EMPTY));
+    std::vector<std::unique_ptr<B> > ds;
+    const D& cc = c;
+    for (typename D::const_iterator i = cc.begin(), e = cc.end(); i != e; ++i) ds.push_back(canonical<B>(i->pointset(), variant));
+    if (variant % 2) std::reverse(ds.begin(), ds.end());
+    for (auto& d : ds) t->add_disjunct(*d);
+    return t;
+  }
+  else if constexpr (Dom<D>::kind == PROD) {
+    // same components, each re-built eagerly; the product itself is not reduced here
+    std::unique_ptr<typename Dom<D>::d1_type> a = canonical<typename Dom<D>::d1_type>(c.d1, variant);
+    std::unique_ptr<typename Dom<D>::d2_type> b = canonical<typename Dom<D>::d2_type>(c.d2, variant + 1);
+    std::unique_ptr<D> t(new D(dim, PPL::UNIVERSE));
+    t->d1 = *a; t->d2 = *b; t->clear_reduced_flag();
+    return t;
+  }
+  else if constexpr (Dom<D>::kind == GRID) {
     if (variant % 2 == 1) {
       if (c.is_empty()) return std::unique_ptr<D>(new D(dim, PPL::EMPTY));
       std::unique_ptr<D> t(new D(c.minimized_grid_generators()));
@@ -198,9 +286,12 @@ template <class D> inline std::unique_ptr<D> canonical(const D& x, int variant) 
 }
 
 template <class D> inline bool same_value(const D& a, const D& b) {
+  FaultPause pause;
   if (a.space_dimension() != b.space_dimension()) return false;
   D x(a), y(b);
-  return x == y;
+  if constexpr (Dom<D>::kind == PSET) return x.geometrically_equals(y);
+  else if constexpr (Dom<D>::kind == PROD) return true;   // products: judged by probe points only (component equality is not set equality)
+  else return x == y;
 }
 
 // ---------------------------------------------------------------- the harness
@@ -215,9 +306,10 @@ template <class D> struct ObjHarness : Harness {
   void add(const DescT& d) { table.push_back(d); }
   void finish() { by_name.clear(); for (auto& d : table) by_name[d.name] = &d; }
   void warmup() override { fault_install_hooks(); }
+  int child_seconds() const override { return 20; }
   std::vector<std::pair<std::string, long> > shrink_knobs() const override { return { { "pool", 1 } }; }
 
-  static bool prop_uses_twin(const std::string& p) { return p == "C01" || p == "C04" || p == "C05"; }
+  static bool prop_uses_twin(const std::string& p) { return p == "C01" || p == "C04" || p == "C05" || p == "C09" || p == "C10"; }
 
   // ---------------- generation
   Plan generate(Rng& r, const std::string& prop, bool thorough) override {
@@ -229,6 +321,10 @@ template <class D> struct ObjHarness : Harness {
     p.knobs["dim"] = dim; p.knobs["pool"] = pool; p.knobs["W"] = dim + 2;
     p.knobs["pseed"] = (long) r.below(1000000);
     bool big = r.chance(15);
+    // grid powersets: Pointset_Powerset<Grid>'s partition-based operators enumerate one piece per unit of
+    // the ratio between moduli, so multi-limb coefficients make them run for ever (a complexity limit, not
+    // a property under test): keep coefficients small there
+    if constexpr (Dom<D>::kind == PSET) { if (Dom<typename Dom<D>::base_type>::kind == GRID) big = false; }
     int W = dim + 2;
     long n = r.range(8, thorough ? 60 : 28);
     // swarm: a random subset of the table is enabled for this run
@@ -340,13 +436,32 @@ template <class D> struct ObjHarness : Harness {
     else return false;
   }
 
-  std::unique_ptr<D> do_construct(Run& R, Cur& c) {
-    int dim = R.dimk;
+  std::unique_ptr<D> do_construct(Run& R, Cur& c) { return construct_dim(R.dimk, c); }
+
+  static std::unique_ptr<D> construct_dim(int dim, Cur& c) {
     long mode = c.mod(6);
     long rows = c.mod(5);
     std::unique_ptr<D> x;
     if (mode == 0) { x.reset(new D((dimension_type) dim, PPL::EMPTY)); return x; }
     if (mode == 1) { x.reset(new D((dimension_type) dim, PPL::UNIVERSE)); return x; }
+    if constexpr (Dom<D>::kind == PSET) {
+      typedef typename Dom<D>::base_type B;
+      x.reset(new D((dimension_type) dim, PPL::EMPTY));
+      long n = 1 + rows % 3;
+      for (long k = 0; k < n; ++k) { std::unique_ptr<B> d = ObjHarness<B>::construct_dim(dim, c); x->add_disjunct(*d); }
+      return x;
+    }
+    else if constexpr (Dom<D>::kind == PROD) {
+      x.reset(new D((dimension_type) dim, PPL::UNIVERSE));
+      for (long k = 0; k < rows; ++k) {
+        long t = c.mod(4);
+        if (t <= 1) { Linear_Expression e = c.expr((dimension_type) dim); long rel = c.mod(3); c.next();
+          x->refine_with_constraint(rel == 0 ? (e == 0) : (e >= 0)); }
+        else { Congruence cg = make_congruence(c, (dimension_type) dim); c.next(); x->refine_with_congruence(cg); }
+      }
+      return x;
+    }
+    else
     if constexpr (Dom<D>::kind == POLY) {
       if (mode == 2 || mode == 3) {
         // from generators: first a point, then anything
@@ -508,7 +623,7 @@ template <class D> struct ObjHarness : Harness {
     std::map<int, std::unique_ptr<D> > good;
     for (int s : uniq) good[s].reset(new D(*R.pool[(size_t) s]));
     std::map<int, std::string> bystander;
-    for (int s = 0; s < pool; ++s) if (!good.count(s)) bystander[s] = dump_of(*R.pool[(size_t) s]);
+    for (int s = 0; s < pool; ++s) if (!good.count(s)) bystander[s] = bystander_sig(*R.pool[(size_t) s], R.probes);
     int round0 = fegetround();
     Env<D> env; for (int s : slots) env.o.push_back(R.pool[(size_t) s].get());
     Cur cur(op, (size_t) d.nslots, R.W);
@@ -556,7 +671,7 @@ template <class D> struct ObjHarness : Harness {
     // 4. bystanders
     ctx.note("branch: bystanders");
     for (auto& b : bystander)
-      if (dump_of(*R.pool[(size_t) b.first]) != b.second)
+      if (bystander_sig(*R.pool[(size_t) b.first], R.probes) != b.second)
         ctx.violation("C14", "bystander-changed", klass(op), "an object not involved in the failed call changed representation");
     // 5./6. recovery of every involved object
     for (size_t i = 0; i < uniq.size(); ++i) {
@@ -616,6 +731,8 @@ template <class D> struct ObjHarness : Harness {
           while (fgets(line, sizeof line, f)) {
             if (strstr(line, "leak of")) { in_block = true; continue; }
             if (!in_block) continue;
+            const char* hash = strchr(line, '#');
+            if (!hash || hash - line > 8) continue;       // only stack-frame lines
             const char* in = strstr(line, " in ");
             if (!in) continue;
             std::string fn(in + 4);
@@ -651,7 +768,7 @@ template <class D> struct ObjHarness : Harness {
     for (int i = 0; i < pool; ++i) { R.pool.emplace_back(new D((dimension_type) R.dimk, PPL::UNIVERSE)); R.shadow.emplace_back(nullptr); }
     const std::string& prop = R.prop;
     bool twin = prop_uses_twin(prop);
-    bool bystand = prop == "C13";
+    bool bystand = prop == "C13" || prop == "C09";
     long idx = -1;
     for (const Op& op : plan.ops) {
       ++idx;
@@ -673,7 +790,7 @@ template <class D> struct ObjHarness : Harness {
       if (op.kind == "copy" || op.kind == "assign" || op.kind == "swap" || op.kind == "self_assign" || op.kind == "self_swap") {
         int r = (int) op.mod(0, pool), a = (int) op.mod(1, pool);
         std::map<int, std::string> others; std::map<int, Fp> ofp;
-        if (bystand) for (int s = 0; s < pool; ++s) if (s != r && !(op.kind == "swap" && s == a)) { others[s] = dump_of(*R.pool[(size_t) s]); }
+        if (bystand) for (int s = 0; s < pool; ++s) if (s != r && !(op.kind == "swap" && s == a)) { others[s] = bystander_sig(*R.pool[(size_t) s], R.probes); }
         Fp fa = fingerprint(*R.pool[(size_t) a], R.probes), fr = fingerprint(*R.pool[(size_t) r], R.probes);
         if (op.kind == "copy") { std::unique_ptr<D> n(new D(*R.pool[(size_t) a])); R.pool[(size_t) r] = std::move(n); if (R.shadow[(size_t) a]) R.shadow[(size_t) r].reset(new D(*R.shadow[(size_t) a])); else R.shadow[(size_t) r].reset(); }
         else if (op.kind == "assign") { *R.pool[(size_t) r] = *R.pool[(size_t) a]; if (R.shadow[(size_t) a]) R.shadow[(size_t) r].reset(new D(*R.shadow[(size_t) a])); else R.shadow[(size_t) r].reset(); }
@@ -684,7 +801,7 @@ template <class D> struct ObjHarness : Harness {
         bool good = op.kind == "swap" ? (nr == fa && na == fr) : (nr == fa && na == fa);
         if (!good) ctx.violation("C13", "value-semantics", klass(op), "copy/assign/swap did not transfer the value");
         check_ok(R, op, *R.pool[(size_t) r], "receiver");
-        if (bystand) for (auto& o : others) if (dump_of(*R.pool[(size_t) o.first]) != o.second) ctx.violation("C13", "bystander", klass(op), "an object not involved changed");
+        if (bystand) for (auto& o : others) if (bystander_sig(*R.pool[(size_t) o.first], R.probes) != o.second) ctx.violation("C13", "bystander", klass(op), "an object not involved changed");
         ++ctx.ops_done;
         continue;
       }
@@ -714,7 +831,7 @@ template <class D> struct ObjHarness : Harness {
       if (!op.fault.empty() && prop == "C14" && (d.flags & F_FAULT)) fault_branches(R, op, d, slots, idx);
       // ---- pre-state snapshots
       std::map<int, std::string> others;
-      if (bystand) for (int s = 0; s < pool; ++s) if (std::find(uniq.begin(), uniq.end(), s) == uniq.end()) others[s] = dump_of(*R.pool[(size_t) s]);
+      if (bystand) for (int s = 0; s < pool; ++s) if (std::find(uniq.begin(), uniq.end(), s) == uniq.end()) others[s] = bystander_sig(*R.pool[(size_t) s], R.probes);
       std::map<int, Fp> pre;
       for (int s : uniq) pre[s] = fingerprint(*R.pool[(size_t) s], R.probes);
       // twins (canonical re-builds) / alias reference / shadows
@@ -743,6 +860,7 @@ template <class D> struct ObjHarness : Harness {
         twin_ops.clear();
       }
       // ---- the operation itself
+      g_def.ctx = &ctx; g_def.probes = &R.probes; g_def.op = &op; g_def.dom = Dom<D>::name(); g_def.prop = prop; g_def.active = (prop == "C01" || prop == "C04" || prop == "C05" || prop == "C09" || prop == "C10");
       Env<D> env; for (int s : slots) env.o.push_back(R.pool[(size_t) s].get());
       Cur cur(op, (size_t) d.nslots, R.W);
       std::string ans; bool threw = false; std::string what;
@@ -758,6 +876,12 @@ template <class D> struct ObjHarness : Harness {
         for (int s : uniq) {
           if (!R.pool[(size_t) s]->OK()) ctx.violation("C14", "rejected-not-ok", klass(op), "OK() false after a rejected call: " + what);
           else if (fingerprint(*R.pool[(size_t) s], R.probes) != pre[s]) ctx.violation("C14", "rejected-changed", klass(op), "value changed by a call rejected with: " + what);
+        }
+        // keep the C15 replicas in lock-step: they see the same (rejected) call
+        if (use_shadow && !twin_ops.empty()) {
+          Env<D> tenv; tenv.o = twin_ops; Cur tcur(op, (size_t) d.nslots, R.W);
+          try { d.prep(tenv, tcur)(); } catch (const std::exception&) {}
+          for (int s : uniq) R.shadow[(size_t) s] = std::move(tw[s]);
         }
         ctx.log("rejected");
         continue;
@@ -793,14 +917,16 @@ template <class D> struct ObjHarness : Harness {
           if (d.flags & F_VAL) {
             D& mine = *R.pool[(size_t) slots[0]]; D& ref = *twin_ops[0];
             if (!ref.OK()) ctx.violation(tprop, std::string(mon) + "-ok", klass(op), "reference result fails OK()");
-            else if (fingerprint(ref, R.probes) != post || !same_value(mine, ref))
+            else if (fingerprint(ref, R.probes) != post || !same_value(mine, ref)) {
               ctx.violation(tprop, std::string(mon) + "-value", klass(op), "result differs from the result on an equal value built differently");
+              if (getenv("VERIF_TRACE")) std::cerr << "TRACE mismatch: receiver\n" << dump_of(mine) << "\nTRACE mismatch: reference\n" << dump_of(ref) << "\n";
+            }
           }
         }
         if (use_shadow) for (int s : uniq) R.shadow[(size_t) s] = std::move(tw[s]);
       }
       // ---- M-bystander
-      if (bystand) for (auto& o : others) if (dump_of(*R.pool[(size_t) o.first]) != o.second) ctx.violation("C13", "bystander", klass(op), "an object not involved in the call changed its representation");
+      if (bystand) for (auto& o : others) if (bystander_sig(*R.pool[(size_t) o.first], R.probes) != o.second) ctx.violation("C13", "bystander", klass(op), "an object not involved in the call changed its representation");
       // harvest probe points from the receiver
       harvest(R, *R.pool[(size_t) slots[0]]);
     }
@@ -809,7 +935,19 @@ template <class D> struct ObjHarness : Harness {
   }
 
   void harvest(Run& R, const D& x) {
-    if constexpr (Dom<D>::kind == POLY) {
+    if constexpr (Dom<D>::kind == PSET) {
+      typedef typename Dom<D>::base_type B;
+      if constexpr (Dom<B>::kind == POLY) {
+        D c(x); const D& cc = c; int nd = 0;
+        for (typename D::const_iterator i = cc.begin(), e = cc.end(); i != e && nd < 2; ++i, ++nd) {
+          B d(i->pointset()); if (d.is_empty()) continue;
+          const Generator_System& gs = d.generators(); int n = 0;
+          for (Generator_System::const_iterator g = gs.begin(); g != gs.end() && n < 3; ++g, ++n)
+            if (g->is_point() || g->is_closure_point()) R.probes.add(d.space_dimension(), oracle::vec_of(*g, d.space_dimension(), true));
+        }
+      }
+    }
+    else if constexpr (Dom<D>::kind == POLY) {
       D c(x);
       if (c.is_empty()) return;
       dimension_type dim = c.space_dimension();
